@@ -1,10 +1,10 @@
 """C10 — Object Lock protections cannot be circumvented (DESIGN.md §7 C10)."""
 import datetime, hashlib, json, os
-from vlib import common, coq, gobuild, gw, s3c, e2e
+from vlib import common, coq, gobuild, gw, s3c, e2e, gen
 from vlib.common import coq_str, coq_list, coq_bool, coq_opt
 
-THEOREMS = ["C10_allowed_means_unprotected", "C10_protected_version_survives", "C10_compliance_never_weakened", "C10_governance_needs_bypass_permission", "C10_retention_overwrite_rule"]
-TARGETS = ["Properties/C10.vo", "Check/LockCheck.vo"]
+THEOREMS = ["C10_allowed_means_unprotected", "C10_protected_version_survives", "C10_compliance_never_weakened", "C10_governance_needs_bypass_permission", "C10_retention_overwrite_rule", "C10_destructive_routes_checked"]
+TARGETS = ["Properties/C10.vo", "Check/LockCheck.vo", "Check/LockRouteCheck.vo"]
 P = b"protected-content-" + bytes(range(40))
 OTHER = b"attacker-content"
 USERS = [("adm", "admin"), ("own", "userplus"), ("usr", "user"), ("byp", "user")]
@@ -153,7 +153,16 @@ def run(chk):
                 "and its retention and hold are read; thorough tier adds random sequences. Non-trivial: every case (each targets a protected "
                 "version); distinct by the tuple.")
     gwbin = gobuild.build_gateway("verif")
+    gen.regenerate()
     built = coq.ensure_built(chk, TARGETS)
+    if not built:
+        # which destructive rows of the regenerated table are not preceded by the lock check
+        rc_, out_ = coq.run_cases("C10_rows", "From VGW Require Import Gen.RouteTable Gen.LockCalls Check.LockRouteCheck.\nFrom Coq Require Import List.\nImport ListNotations.\n"
+                                  "Definition BR := Eval vm_compute in map snd (lock_bad_rows route_table).\nPrint BR.\n"
+                                  "Eval vm_compute in (destructive_present route_table, cmu_checked posix_lock_calls).\n")
+        br = coq.printed_list(out_, "BR")
+        chk.obligation("destructive routes (s3api/controllers/base.go lines) not preceded by auth.CheckObjectAccess: %s; (all destructive operations present, CompleteMultipartUpload checks before linking) = %s"
+                       % (br, " ".join(out_.split())[-60:]), False, str(br))
     if built:
         coq.check_assumptions(chk, "Properties.C10", THEOREMS)
     rnd = chk.rnd
